@@ -145,6 +145,40 @@ def check_ip(R, n):
     check_codec(R, obj, ("ip", packed))
 
 
+def long_run(R):
+    """One process converts tens of thousands of DISTINCT values and then sees earlier
+    ones again (a poller re-reading a large, slowly changing table): whatever the library
+    remembers between calls - and forgets when a limit is reached - must not change what
+    a value converts to."""
+    n = 9000 if R.tier == "quick" else 60000
+    addrs = [(i * 2654435761 + 12345) % 2**32 for i in range(n)]
+    ticks = [(i * 40503 + 7) % 2**32 for i in range(n)]
+    # every value is read again 1, 2, 3, ... thousand values later as well as in the next
+    # round (a limit that is a power of two evicts in such strides)
+    order = []
+    for i in range(n):
+        order.append(i)
+        for back in (1000, 1024, 2048, 3072, 3073, 4096, 5000):
+            if i >= back:
+                order.append(i - back)
+    for rnd in range(2):
+        for i in order:
+            a = addrs[i]
+            packed = a.to_bytes(4, "big")
+            got = IpAddress.decode_raw(packed)
+            got2 = x690.decode(b"\x40\x04" + packed)[0].value
+            if got != ipaddress.IPv4Address(a) or type(got) is not ipaddress.IPv4Address or got2 != got:
+                got = (got, got2)
+                R.violation({"kind": "long-run", "what": "ip", "i": i, "round": rnd}, "address number %d of %d, seen for the %s time: %r decodes to %r" % (i, n, ("first round", "second round")[rnd], packed, got), None)
+                return
+            t = ticks[i]
+            if TimeTicks(t).pythonize() != t * TICK or Counter(t + 2**32).value != t or x690.decode(bytes([0x41, 5, 0]) + t.to_bytes(4, "big"))[0].value != t:
+                R.violation({"kind": "long-run", "what": "ticks", "i": i, "round": rnd}, "value number %d of %d (round %d): %d converts wrongly" % (i, n, rnd, t), None)
+                return
+        R.evaluations += len(order)
+    R.mon["long_run_values"] += 2 * len(order)
+
+
 def deep_stack(R):
     """Values are decoded lazily, i.e. on the CALLER's stack: read at every depth close to
     the interpreter's recursion limit a value comes out right or the read raises
@@ -342,6 +376,8 @@ def run(R):
         thread_stress(R)
     if R.shard == 2 % R.nshards:
         deep_stack(R)
+    if R.shard == 3 % R.nshards:
+        long_run(R)
     # ---- contracts ------------------------------------------------------------
     breaches = sum(len(c.breaches) for c in contracts)
     typecontracts.report(R, contracts, decide=False)
@@ -366,6 +402,8 @@ def replay(R, v):
         thread_stress(R)
     elif k == "deep-stack":
         deep_stack(R)
+    elif k == "long-run":
+        long_run(R)
     elif k == "unsigned-decode":
         raw = bytes.fromhex(c["raw"])
         cls = {0x41: Counter, 0x42: Gauge, 0x43: TimeTicks, 0x46: Counter64}[raw[0]]
